@@ -9,6 +9,8 @@ import (
 	"path/filepath"
 	"strings"
 
+	"verif/kv"
+
 	"github.com/lianxiangcloud/linkchain/app"
 	bc "github.com/lianxiangcloud/linkchain/blockchain"
 	cs "github.com/lianxiangcloud/linkchain/consensus"
@@ -234,4 +236,36 @@ func NewWalDir(root string) (string, error) {
 		root = "/dev/shm"
 	}
 	return newWalDir(root)
+}
+
+// RestartOnCopies is RestartOn for the map kv.Recorder.Materialize returns.
+func (c *Chain) RestartOnCopies(dbs map[string]*kv.CopyDB, walDir string) (*Chain, error) {
+	m := map[string]dbm.DB{}
+	for k, v := range dbs {
+		m[k] = v
+	}
+	return c.RestartOn(m, walDir)
+}
+
+// WalBytes returns the current content of kvState.wal (nil if the file does not exist: trie mode).
+func (c *Chain) WalBytes() []byte {
+	bz, err := ioutil.ReadFile(c.WalPath())
+	if err != nil {
+		return nil
+	}
+	return bz
+}
+
+// PutWal writes content as dir/kvState.wal (a crash harness restoring a snapshot of the undo log before RestartOn).
+// content == nil removes the file.
+func PutWal(dir string, content []byte) error {
+	p := filepath.Join(dir, WalFileName)
+	if content == nil {
+		err := os.Remove(p)
+		if os.IsNotExist(err) {
+			return nil
+		}
+		return err
+	}
+	return ioutil.WriteFile(p, content, 0600)
 }
